@@ -11,7 +11,7 @@
      cell_good f c : cell c is acceptable for field f (nested: a row of acceptable cells for a non-empty sub-schema)
      arg_good f a  : constructor argument a (python list, or Inner( *columns)) holds acceptable values for field f *)
 From Coq Require Import String ZArith List Bool Permutation.
-From BNP Require Import Base.Prims Model.C19 Corr.C19 Proofs.C19 Proofs.C19_rows Proofs.C19_prog Proofs.C19_link Proofs.C19_example Gen.C19 Bridge.C19.
+From BNP Require Import Base.Prims Model.C19 Corr.C19 Proofs.C19 Proofs.C19_rows Proofs.C19_prog Proofs.C19_link Proofs.C19_example Proofs.C19_iter Gen.C19 Bridge.C19.
 Import ListNotations.
 Open Scope Z_scope.
 
@@ -373,3 +373,52 @@ Theorem C19_program_nonvacuous :
   /\ exp_trace = [3; 3; 3; 3; 3; 3; 2; 2; 2; -1; 101; -1; -1; 4; 4; 104].
 Proof. exact program_nonvacuous. Qed.
 Print Assumptions C19_program_nonvacuous.
+
+(* ====================================================================== round 6: the shape a sequence argument is handed over in
+   from_entry_tuples is declared Iterable[tuple].  itkind names the shapes (re-iterable: list, tuple, deque, an object
+   with only __iter__, a dict view, rows as lists; one-shot: generator, iter(), zip of the columns, map, chain, an
+   object with only __next__); it_yield pre one_shot rows is what the (pre+1)-th traversal yields; the operation
+   ORows how of a program is from_entry_tuples(<cur.tolist() handed over as how>). *)
+
+(* the source tie of this route: the body mentions its argument once, i.e. no traversal before zip( *tuples) *)
+Theorem C19_from_rows_argument_uses_tie :
+  gen_from_rows_argument_uses = m_from_rows_argument_uses
+  /\ m_from_rows_pre_traversals = Z.to_nat (gen_from_rows_argument_uses - 1) /\ m_from_rows_pre_traversals = 0%nat.
+Proof. exact (conj b_from_rows_argument_uses b_from_rows_no_pre_traversal). Qed.
+Print Assumptions C19_from_rows_argument_uses_tie.
+
+(* the table built does not depend on the shape: for every schema, every shape and every list of rows (any length),
+   the code that exists builds from a generator / iterator / zip / map exactly what it builds from the list *)
+Theorem C19_from_rows_any_iterable :
+  forall sch how rows, m_from_rows_via m_from_rows_pre_traversals sch how rows = m_from_rows sch rows.
+Proof. exact from_rows_any_iterable. Qed.
+Print Assumptions C19_from_rows_any_iterable.
+
+(* building a table from rows and converting it to rows are inverse — for every stored table (0..N rows, every column
+   kind, nested tables) and EVERY hand-over shape: the result is a stored table of the same schema with exactly the
+   rows of the operand *)
+Theorem C19_rows_roundtrip_any_iterable :
+  forall sch sch1 cur t1 how, Inv sch cur -> Inv sch1 t1 ->
+    exists t', m_step sch cur t1 (ORows how) = MTab sch t' /\ Inv sch t' /\ E t' = E cur.
+Proof. exact rows_step_any_iterable. Qed.
+Print Assumptions C19_rows_roundtrip_any_iterable.
+
+(* why the library's tests (lists everywhere) cannot see a change of the traversal count, and what such a change does:
+   a re-iterable argument is immune to any number of earlier traversals; a one-shot argument after ONE earlier
+   traversal yields the table of zero rows, whatever rows it held *)
+Theorem C19_from_rows_reiterable_any_traversals :
+  forall pre sch how rows, it_one_shot how = false -> m_from_rows_via pre sch how rows = m_from_rows sch rows.
+Proof. exact from_rows_reiterable_any_pre. Qed.
+Print Assumptions C19_from_rows_reiterable_any_traversals.
+Theorem C19_from_rows_one_shot_pretraversal_loses_rows :
+  forall pre sch how rows, (0 < pre)%nat -> it_one_shot how = true ->
+    m_from_rows_via pre sch how rows = m_from_rows sch [].
+Proof. exact from_rows_one_shot_pre. Qed.
+Print Assumptions C19_from_rows_one_shot_pretraversal_loses_rows.
+Theorem C19_from_rows_iterable_nonvacuous :
+  option_map m_len (m_from_rows_via 1 it_sch ItGen it_rows) = Some 0%nat
+  /\ option_map m_len (m_from_rows_via 1 it_sch ItList it_rows) = Some 2%nat
+  /\ option_map m_len (m_from_rows_via m_from_rows_pre_traversals it_sch ItGen it_rows) = Some 2%nat
+  /\ option_map m_to_rows (m_from_rows_via m_from_rows_pre_traversals it_sch ItGen it_rows) = Some it_rows.
+Proof. exact from_rows_pretraversal_example. Qed.
+Print Assumptions C19_from_rows_iterable_nonvacuous.
